@@ -95,6 +95,11 @@ CHECKS = {
    text="Three connections in tenants A, B, A (client ids dev, dev, dev3) on two nodes with '#', '+', '+/+' subscriptions, publishers, retained messages and wills in both tenants, topics named like the other tenant, three '#' watchers: every PUBLISH written must stem from a message of the recipient's tenant and carry exactly the publisher's topic levels; a session is displaced only by a same-tenant session of the same client id.",
    note="Trusts TLC, the Json module, the harness authentication seam (user 'tenant:<x>' -> mount point x). Mount-point names without '/', '+', '#'.",
    design="5 C17, 4.8"),
+ "C18": dict(
+   technique="TLA+ spec ConnFsm model-checked with TLC; TLC-generated packet-type sequences, each malformed input realised by structure-aware byte mutations, sent to real brokers running in child processes with a witness round trip after every stream; process deaths observed directly, traces validated by TLC against BrokerTrace (trace validation)",
+   text="Every sequence of 3 inputs (thorough: + 20000 of length 4) over all 14 control packet types, MALFORMED and EOF before CONNECT, plus about 1000 byte-level mutations (truncation at every offset with EOF, first-byte values, remaining-length edge values up to 268435455 and 5-byte lengths, inner length prefixes, QoS 3, empty lists, identifier 0, seeded random bytes) each alone before and after a valid CONNECT: the broker process must survive (a panic kills the child process and is reported with the stream), only the offender's session may end, the witness pair's QoS 1 round trip must succeed after every stream, nothing may stall.",
+   note="Trusts TLC, the Json module, the harness. Which bytes realise 'malformed' is outside TLA+. Quick samples 3200 of the streams (seeded).",
+   design="5 C18, 8"),
 }
 
 def main():
